@@ -29,7 +29,7 @@ ASSUMPTIONS = [
     'rounding reference: Decimal(repr(x)) quantised in Excel\'s direction; '
     'CEILING/FLOOR: significance * ceil|floor(x / significance) in exact '
     'fractions of the shortest representations',
-    '0^0, ATAN2(0,0), FACT(171), FACTDOUBLE of negatives, significance 0, '
+    '0^0, ATAN2(0,0), FACT(171), FACTDOUBLE of negatives, negative fractions under FACT, significance 0, '
     'non-integer digit counts are not generated',
 ]
 
@@ -125,6 +125,9 @@ def _build(d):
         x = d.choice(EDGE[fn])
     elif fn in ('FACT', 'FACTDOUBLE'):
         x = str(d.int(0, 170 if fn == 'FACT' else 300))
+        if d.chance(1, 4):
+            # a fractional argument is truncated first (6.5 -> 6)
+            x += d.choice(['.5', '.75', '.001', '.25', '.999'])
     elif fn in ('ASIN', 'ACOS'):
         x = ('-' if d.pick(2) else '') + '0.' + ''.join(
             str(d.pick(10)) for _ in range(d.int(1, 12)))
